@@ -231,9 +231,9 @@ theorem fph_idStore_step_parse (s : PStore) {m : Mode} {text : Str} {p : Parsed}
 /-! ### The xml:id index along histories (keys and entries were handed out earlier) -/
 
 /-- Keys and entries of the index are handles handed out earlier. -/
-def IndexBelow (s : PStore) : Prop := ∀ e ∈ s.index, e.1.1 < s.forest.next ∧ e.2 < s.forest.next
+def fphIndexBelow (s : PStore) : Prop := ∀ e ∈ s.index, e.1.1 < s.forest.next ∧ e.2 < s.forest.next
 
-theorem fph_indexBelow_init (env : Env) : (init env).IndexBelow := fun _ he => (by cases he)
+theorem fph_indexBelow_init (env : Env) : (init env).fphIndexBelow := fun _ he => (by cases he)
 
 theorem fph_indexBelow_parseInto {s : IdStore} (hw : ∀ e ∈ s.index, e.1.1 < s.forest.next ∧ e.2 < s.forest.next)
     (t : Tree) : ∀ e ∈ (s.parseInto t).1.index,
@@ -253,7 +253,7 @@ theorem fph_indexBelow_parseInto {s : IdStore} (hw : ∀ e ∈ s.index, e.1.1 < 
     simp only
     omega
 
-theorem fph_indexBelow_step {s : PStore} (hw : s.IndexBelow) (c : PCall) : (s.step c).IndexBelow := by
+theorem fph_indexBelow_step {s : PStore} (hw : s.fphIndexBelow) (c : PCall) : (s.step c).fphIndexBelow := by
   cases c with
   | api c =>
     intro e he
@@ -266,7 +266,7 @@ theorem fph_indexBelow_step {s : PStore} (hw : s.IndexBelow) (c : PCall) : (s.st
       exact fph_indexBelow_parseInto (s := s.idStore) hw p.tree
     · rw [fph_step_parse_err s hp]; exact hw
 
-theorem fph_indexBelow_run : ∀ (cs : List PCall) {s : PStore}, s.IndexBelow → (s.run cs).IndexBelow
+theorem fph_indexBelow_run : ∀ (cs : List PCall) {s : PStore}, s.fphIndexBelow → (s.run cs).fphIndexBelow
   | [], _, hw => hw
   | c :: cs, _, hw => fph_indexBelow_run cs (fph_indexBelow_step hw c)
 
@@ -289,9 +289,9 @@ theorem fph_lookup_run : ∀ (cs : List PCall) (s : PStore) (d : Nat) (v : Str),
       fph_lookup_step s c d v hd]
 
 /-- `xml_id_node` along histories: as long as the element is not removed the answer stays; once it
-    is removed the answer is `none` for ever (the index invariant `IndexBelow` of the start state is
+    is removed the answer is `none` for ever (the index invariant `fphIndexBelow` of the start state is
     what every reachable state has). -/
-theorem fph_xmlIdNode_stable (s : PStore) (hw : s.IndexBelow) (cs : List PCall) (doc h : Nat) (v : Str)
+theorem fph_xmlIdNode_stable (s : PStore) (hw : s.fphIndexBelow) (cs : List PCall) (doc h : Nat) (v : Str)
     (hx : s.xmlIdNode doc v = some h) :
     ((s.run cs).forest.isRemoved h = false → (s.run cs).xmlIdNode doc v = some h) ∧
     ((s.run cs).forest.isRemoved h = true → ∀ more : List PCall, ((s.run cs).run more).xmlIdNode doc v = none) := by
